@@ -5,6 +5,7 @@ import Tickit.Proof.WinDamage
 import Tickit.Proof.WinSteps
 import Tickit.Proof.WinGeom
 import Tickit.Proof.WinClose
+import Tickit.Proof.WinScroll
 import Tickit.Props.C02
 /-
   C01 — The flushed screen equals the painter's-model composition of the window tree.
@@ -663,6 +664,21 @@ def InvQ (content : Id → Int → Int → Cell) (st : St) : Prop :=
 def inv_step_full : Prop :=
   ∀ (content : Id → Int → Int → Cell) (st st' : St) (op : TreeOp),
     RootOk st.tree → RootsPositive st.tree → InvQ content st → runTreeOp st op = .ok st' → InvQ content st'
+
+/-- Stage 5, first part (proved): the rebuilding of the pending damage by a scroll of `rect` by `(d, r)` is exact — damage
+    outside the rectangle stays, damage inside moves with the terminal's content and is cut to the rectangle — and it
+    keeps the invariant of the rectangle set (`Proof/WinScroll.lean`, on C05's `add`/`addMany` theorems). -/
+theorem scroll_damage_shift_exact (rect : Rect) (d r : Int) (hrect : rect.Nonempty) (dmg acc' : List Rect)
+    (h : shiftDamage rect d r dmg [] = .ok acc') (hinv : RectSet.Inv dmg) :
+    RectSet.Inv acc' ∧ ∀ L C, Covered acc' L C ↔ ∃ rj ∈ dmg, ShiftedMem rect d r rj L C := by
+  obtain ⟨h1, h2⟩ := shiftDamage_spec rect d r hrect dmg [] acc' h hinv.1 RectSet.invS_nil
+  refine ⟨(RectSet.inv_iff _).2 h1, fun L C => ?_⟩
+  rw [h2 L C]
+  constructor
+  · rintro (hc | hx)
+    · exact absurd hc (RectSet.covered_nil L C)
+    · exact hx
+  · exact Or.inr
 
 /-- Full statement of stage 5 (open): scrolling, under every scroll oracle, keeps "damaged or already right" when the
     application's content moves with the scroll (`content'` is `content` shifted inside the scrolled rectangle). -/
